@@ -78,7 +78,8 @@ prop("C14", level="proof",
      level_text="Functions on the verdict path are verified with module names as an UNINTERPRETED sort (they can only compare names for equality, so results are invariant under "
                 "every injective renaming by construction); the flagged sites that inspect names character-wise are verified in the string view against dotted-boundary "
                 "contracts. Renaming invariance of verdicts and messages is additionally exercised natively under adversarial component renamings (bounded).",
-     level_note=_RULE_NOTE + " Bounded (not proved): flagged sites not yet under a string-view contract (layer lookup, plot labels, node flattening) are covered by the native renaming check only.",
+     level_note=_RULE_NOTE + " Flagged sites under a string-view contract: the sub-module de-duplication of 'anything' rules, the layer lookup (LayerMapping, dotted ancestors via bisect), plot labels (_create_label), "
+                "get_parent_modules, the internal-prefix functions, ModulePrefixer. Bounded (not proved): node flattening (_flatten_graph_node: split/join with a symbolic limit) and module naming from paths are covered by the native renaming checks only (graph level, layer / label level, and scanned directory trees under three namings of the path components).",
      explanation="Opacity of names + dotted-boundary contracts at flagged sites.",
      roots=["Rule.assert_applies", "Rule._get_modules_to_check_without_parent_and_submodule_combinations"],
      bounded=[_b("invariance", "bounded_renaming"), _b("layers", "bounded_layer_label_renaming")], trusted_base=_TB)
@@ -153,8 +154,11 @@ prop("C10", level="proof",
 prop("C05", level="other",
      level_text="Mixed. PROVED: the layer detector's treatment of same-layer pairs -- LayerRuleViolationDetector._get_realised_dependencies keeps exactly the reported pairs that cross a layer "
                 "boundary; the forbidden-import buckets are exactly those; _get_any_missing_dependencies_in_user_specified_order: the required access to 'something else' is satisfied only by an "
-                "import that leaves the layer; _append_missing_dependencies; the LayerRule ordering guards; the lowered Rule pipeline (shared with C01). The layer lookup itself "
-                "(LayerMapping.get_layer_for_module_name) enters these proofs as ONE uninterpreted function. BOUNDED: layer lookup (bisect), regex-layer replacement, grouping by layers, and the "
+                "import that leaves the layer; _append_missing_dependencies; the LayerRule ordering guards; the lowered Rule pipeline (shared with C01). The layer lookup "
+                "(LayerMapping.get_layer_for_module_name) enters these proofs as ONE uninterpreted function; WHAT that function is, is proved on the real code in the string view: "
+                "LayerMapping.__init__ establishes the lookup structure's well-formedness from a layer definition with unique identifiers, and get_layer_for_module_name returns the layer that "
+                "lists the module, else the layer of a listed DOTTED ancestor (the walk down from the bisect position meets every listed dotted ancestor), LayerMismatch iff two layers qualify, "
+                "None iff none does (sorted / bisect and two facts about str order assumed). BOUNDED: regex-layer replacement, grouping by layers, and the "
                 "end-to-end verdict: random layer partitions (name lists, regex, mixed, unmentioned layers, modules in no layer) on graphs with prefix-named siblings; the real LayerRule "
                 "outcome is compared with the documented layer semantics for all 12 shapes and the two 'any layer' aliases.",
      level_note=_BND_NOTE, technique=_BND_TECH, explanation="layer rule verdicts", roots=["LayerRuleViolationDetector._get_realised_dependencies", "LayerRuleViolationDetector._get_any_missing_dependencies_in_user_specified_order", "LayerRule.based_on"], bounded=[_b("layers", "bounded_layer_verdicts")], trusted_base=_TB)
